@@ -83,7 +83,8 @@ HitOK(kind, lam, v, t, slack) == v.has => t <= v.at + Lam(kind, lam) + slack
 (* RFC 7234 section 4.2.1 over the header classes the driver uses:         *)
 (* freshness lifetime = max-age, else Expires - Date, else none.           *)
 (* h = [cc, expires, date, dttl]; seconds.                                 *)
-MaxAgeOf(cc) == CASE cc \in {"maxage", "nostore_maxage", "private_maxage"} -> 60
+MaxAgeOf(cc) == CASE cc \in {"maxage", "private_maxage"} -> 60
+                  [] cc = "nostore_maxage" -> 0    \* no-store: nothing of it may be kept
                   [] cc = "maxage0" -> 0
                   [] cc = "nocache_maxage" -> 0    \* no-cache: not to be used without asking the origin again
                   [] cc = "maxage1" -> 1
